@@ -368,8 +368,14 @@ def r16_hoist_arg(text, call, name):
         return text, 0
     # start of the enclosing statement: after the previous `;`, `{` or `}` at the same line structure
     s = max(text.rfind(';', 0, k), text.rfind('{', 0, k), text.rfind('}', 0, k)) + 1
+    # skip leading comment lines / blank lines of the statement
+    while True:
+        mm = re.match(r'\s*//[^\n]*\n', text[s:k])
+        if not mm:
+            break
+        s += mm.end()
     between = text[s:k]
-    if not re.match(r'^\s*(let\s+(mut\s+)?%s(\s*:\s*[^=]+)?\s*=\s*)?[A-Za-z_][A-Za-z0-9_:]*\(\s*((%s)\s*,\s*)*$' % (IDENT, IDENT), between):
+    if not re.match(r'^\s*(let\s+(mut\s+)?%s(\s*:\s*[^=]+)?\s*=\s*)?([A-Za-z_][A-Za-z0-9_:]*\(\s*((%s)\s*,\s*)*)+$' % (IDENT, IDENT), between):
         raise RuleError('R16: statement prefix %r is not a call on plain variables' % between)
     ls = text.rfind('\n', 0, s) + 1 if text[s:k].lstrip() == text[s:k] else s
     m = re.match(r'\s*', text[s:])
@@ -377,3 +383,30 @@ def r16_hoist_arg(text, call, name):
     indent = _indent_of(text, ind_start)
     new = text[:ind_start] + 'let %s = %s;\n%s' % (name, call, indent) + text[ind_start:k] + name + text[k + len(call):]
     return new, 1
+
+
+@rule('R9')
+def r9_float(text, div='vt_fdiv'):
+    """integer-to-float casts and the float quotient become calls of trusted helpers so that the integer part of the
+    function is verifiable and "the quotient is defined" becomes an obligation:
+       E as f64 / N   -> DIV(vt_f64(E), N)       (DIV = vt_fdiv: requires denominator >= 1;  vt_fdiv_any: no requirement)
+       E as f64       -> vt_f64(E)               (E runs back to the start of the expression on its line / after `{`)
+       1.0            -> vt_f64(1)"""
+    n = 0
+    # quotient, possibly with the `/ N` on the next line
+    pat = re.compile(r'(?P<ind>^[ \t]*|\{ )(?P<e>[^\n;{}]*?(?:\n[ \t]*\.[^\n;{}]*)*?) as f64\s*/\s*(?P<n>%s)' % IDENT, re.M)
+    text, k = pat.subn(lambda m: '%s%s(vt_f64(%s), %s)' % (m.group('ind'), div, m.group('e'), m.group('n')), text)
+    n += k
+    pat = re.compile(r'(?P<ind>^[ \t]*|\{ )(?P<e>[^\n;{}]+?) as f64\b', re.M)
+    text, k = pat.subn(lambda m: '%svt_f64(%s)' % (m.group('ind'), m.group('e')), text)
+    n += k
+    text, k = re.subn(r'(?<![0-9A-Za-z_.])1\.0(?![0-9A-Za-z_])', 'vt_f64(1)', text)
+    n += k
+    return text, n
+
+
+@rule('R6_slice_min')
+def r6_slice_min(text):
+    """V[A..B].iter().min().copied().unwrap_or(0)  ->  vt_slice_min_or0(&V, A, B)"""
+    pat = re.compile(r'\b(%s)\[([^\]\n]+?)\.\.([^\]\n]+?)\]\s*\.iter\(\)\s*\.min\(\)\s*\.copied\(\)\s*\.unwrap_or\(0\)' % IDENT)
+    return pat.subn(lambda m: 'vt_slice_min_or0(&%s, %s, %s)' % (m.group(1), m.group(2), m.group(3)), text)
